@@ -590,6 +590,20 @@ public:
         }
         if (VD->hasInit())
           G["init"] = FnEmitter::initValue(Ctx, VD->getInit());
+        {
+          // field order of the (element) record type, named or not: initialiser lists are positional
+          QualType ET = VD->getType();
+          while (const ArrayType *AT = Ctx.getAsArrayType(ET))
+            ET = AT->getElementType();
+          if (const RecordType *RT = ET->getAs<RecordType>()) {
+            if (RT->getDecl()->isCompleteDefinition()) {
+              json::Array Names;
+              for (const FieldDecl *F : RT->getDecl()->fields())
+                Names.push_back(F->getNameAsString());
+              G["fields"] = std::move(Names);
+            }
+          }
+        }
         PresumedLoc PL = SM.getPresumedLoc(L);
         if (PL.isValid()) {
           G["loc"] = json::Array{(int64_t)PL.getLine(), (int64_t)PL.getColumn()};
